@@ -126,7 +126,10 @@ Definition act_c (v : lstate) : list lstate :=
 Definition act_t (v : lstate) : list lstate :=
   match l_t v with
   | LkOut => if k_to (l_k v) then [w_t v (LkAt KGet)] else []
-  | LkAt kk => let '(v', o) := lkstep kk v in [w_t v' (lk_of o)]
+  | LkAt kk => let '(v', o) := lkstep kk v in
+               [w_t v' (lk_of o)] ++
+               (* the next entry of the timeout table is taken up in the same step *)
+               match o with None => if k_to (l_k v) then [w_t v' (LkAt KGet)] else [] | Some _ => [] end
   end.
 
 Definition act_w (v : lstate) : list lstate :=
